@@ -99,6 +99,7 @@ func Generate(s *ast.Schema, seed int64, kind ast.Operation, cfg Config) *Op {
 		}
 		sb.WriteString(")")
 	}
+	sb.WriteString(g.opDirectives(kind))
 	sb.WriteString(" " + body)
 	for _, f := range g.frags {
 		sb.WriteString("\nfragment " + f.name + " on " + f.on + " " + f.body)
@@ -325,6 +326,51 @@ func (g *gen) selectionSet(def *ast.Definition, depth int) string {
 		parts = append(parts, "__typename")
 	}
 	return "{ " + strings.Join(parts, " ") + " }"
+}
+
+// opDirectives occasionally applies one or two of the schema's executable directives declared for
+// this kind of operation (QUERY / MUTATION), including those declared for that kind only.
+func (g *gen) opDirectives(kind ast.Operation) string {
+	loc := ast.LocationQuery
+	if kind == ast.Mutation {
+		loc = ast.LocationMutation
+	}
+	var names []string
+	for n, d := range g.s.Directives {
+		for _, l := range d.Locations {
+			if l == loc {
+				names = append(names, n)
+			}
+		}
+	}
+	p := 0.2
+	if kind == ast.Mutation {
+		p = 0.5 // mutations are the rarer kind in every workload
+	}
+	if len(names) == 0 || !g.chance(p) {
+		return ""
+	}
+	sort.Strings(names)
+	out := ""
+	n := 1 + g.r.Intn(2)
+	for i := 0; i < n && i < len(names); i++ {
+		d := g.s.Directives[names[(g.r.Intn(len(names))+i)%len(names)]]
+		if strings.Contains(out, "@"+d.Name+"(") || strings.HasSuffix(out, "@"+d.Name) {
+			continue
+		}
+		var args []string
+		for _, a := range d.Arguments {
+			if a.Type.Name() == "String" && a.Type.Elem == nil {
+				args = append(args, a.Name+": \"o"+strconv.Itoa(g.r.Intn(3))+"\"")
+			}
+		}
+		out += " @" + d.Name
+		if len(args) > 0 {
+			out += "(" + strings.Join(args, ", ") + ")"
+		}
+		g.feat["operation_directive"]++
+	}
+	return out
 }
 
 // fieldDirective occasionally applies a custom executable directive (location FIELD) declared by
